@@ -232,8 +232,16 @@ def run_worker(ctx):
         try:
             test()
             break
-        except Violation:
+        except (Violation, hypothesis.errors.Flaky) as exc:
+            # Flaky: the tested code answered differently when Hypothesis
+            # re-ran the failing example (e.g. hash-order dependence); the
+            # violation recorded at its first occurrence stands
+            if 'fail' not in last:
+                raise
             key, rec = last['fail']
+            if not isinstance(exc, Violation):
+                rec['detail'] = dict(rec.get('detail') or {},
+                                     nondeterministic_on_rerun=True)
             skip.add(key)
             ctx.stats.violations.append(rec)
 
